@@ -49,6 +49,8 @@ pub enum Tok {
     Esc4,
     /// End(pad, mode): mode 0 crc good for the last START, 1 good for the first START, 2 good for the whole stream, 3 bad
     End(u8, u8),
+    /// Crc(mode): just the two checksum bytes (little endian) over everything since the last (0) / first (1) START
+    Crc(u8),
     Frame(Vec<u8>),
     Fin,
     Rst,
@@ -82,6 +84,14 @@ pub fn expand(toks: &[Tok]) -> Vec<u32> {
                 if *mode == 3 {
                     c = c.wrapping_add(1)
                 }
+                s.extend(c.to_le_bytes());
+            }
+            Tok::Crc(mode) => {
+                let from = match mode {
+                    0 => *starts.last().unwrap_or(&0),
+                    _ => *starts.first().unwrap_or(&0),
+                };
+                let c = crc16(&s[from..]);
                 s.extend(c.to_le_bytes());
             }
             Tok::Frame(p) => {
